@@ -131,7 +131,49 @@ func runC04(env *Env) {
 		env.Count(class)
 		env.Emit("C04 "+c, pool.Run("C04 "+c))
 	}
+	// twin: a template with pairwise the same element ids and wire lengths as fs but other
+	// enterprise numbers: the reverse element (29305) where the registry has one, else (lenient
+	// modes only) an enterprise the registry does not know. Replacing a template by its twin
+	// changes which elements the data belongs to and nothing else about its shape.
+	twin := func(fs []fieldSpec, mode string) []fieldSpec {
+		out := []fieldSpec{}
+		changed := false
+		for _, f := range fs {
+			g := f
+			if f.Known && f.Ent == registry.IANAEnterpriseID && r.Intn(4) != 0 {
+				if ie, err := registry.GetInfoElementFromID(f.ID, registry.IANAReversedEnterpriseID); err == nil {
+					if _, err := entities.DecodeAndCreateInfoElementWithValue(ie, nil); err == nil && entities.InfoElementLength[ie.DataType] == f.effLen() {
+						g = fieldSpec{ID: ie.ElementId, Ent: ie.EnterpriseId, Len: f.Len, DT: ie.DataType, Known: true}
+						changed = true
+					}
+				}
+			}
+			if g.Ent == f.Ent && mode != "S" && f.effLen() != entities.VariableLength && r.Bool() {
+				for _, ent := range []uint32{12345, 4294967295, 77} {
+					if ent != f.Ent && !isKnown(f.ID, ent) {
+						g = fieldSpec{ID: f.ID, Ent: ent, Len: f.effLen(), DT: entities.OctetArray}
+						changed = true
+						break
+					}
+				}
+			}
+			out = append(out, g)
+		}
+		if !changed {
+			return nil
+		}
+		return out
+	}
 	newAlphabet := func(mode string) *c04Alphabet {
+		if r.Intn(4) == 0 {
+			for try := 0; try < 20; try++ {
+				a := c04Template(r, true)
+				if b := twin(a, mode); b != nil {
+					env.Count("alphabet/B-is-enterprise-twin-of-A")
+					return &c04Alphabet{fsA: a, fsB: b, r: r}
+				}
+			}
+		}
 		// template A is always acceptable in the mode; B may contain unknown elements (then it
 		// is a bad-after-header message in strict mode)
 		return &c04Alphabet{fsA: c04Template(r, true), fsB: c04Template(r, mode == "S" && r.Bool()), r: r}
